@@ -50,6 +50,32 @@ CHECKS = {
         note="Byte-level robustness is sampled, not coverage-guided fuzzing (outside this technique family; said so in "
              "DESIGN 5). Fake STS for the cloud-role path.",
         ref="DESIGN.md 4 C10"),
+    "C04": dict(
+        module="KMTokens",
+        technique="TLA+ artefact/consumer model (TLC) + TLC-enumerated producer x consumer x mutation rows and seeded "
+                  "byte corruptions presented to the real endpoints + TLC trace monitor",
+        text="KMTokens defines when an endpoint may honour an artefact (our signature, the kind it consumes, inside its "
+             "window, issuer/audience for session/CLI/storage tokens) and that a refusal has no side effect; TLC checks "
+             "the never-interchangeable / only-our-signature / alteration-rejected clauses on the model and enumerates "
+             "the 6x6 matrix, all signer substitutions (other RSA/EC key, alg none, HS256 keyed with the public key) and "
+             "single-claim mutations; genuine artefacts are obtained from the real handlers, mutated by the harness "
+             "(which holds the CA key), presented to the cookie gate, CLI verify/send, storage read, token endpoint and "
+             "userinfo, and the outcomes replayed through the TLC monitor. A control (faithfully re-signed genuine "
+             "artefact must be honoured) guards against vacuous refusals.",
+        note="Cryptographic unforgeability is assumed; the verification logic around the primitives is what is decided. "
+             "Base64 slack-bit alterations that leave the decoded triple unchanged are not alterations.",
+        ref="DESIGN.md 4 C04"),
+    "C12": dict(
+        module="KMTokens",
+        technique="TLA+ code-exchange model (TLC) + full 3240-row product executed as real authorize + token + userinfo "
+                  "requests + TLC trace monitor on the decoded tokens",
+        text="Release guards (client proven by secret or, for secret-less clients, by the PKCE verifier bound into the "
+             "code; code issued to the caller; fresh; same redirect) and token-content guards (issuer, sole audience, "
+             "subject = user at authorization, nonce echo, verifies under the served JWKS, exp <= auth+16h, userinfo names "
+             "the same user) are evaluated by the TLC monitor on every row of the full product; both legitimate flows "
+             "must succeed (non-vacuity).",
+        note="Trusted: go-jose for decoding; one user (alice) authorizes, so subject confusion is detected as sub != alice.",
+        ref="DESIGN.md 4 C12"),
 }
 PENDING_REASON = "check not built yet in this session (specification module planned in DESIGN.md section 4); not claimed until its check runs clean on the unchanged tree"
 ALL = ["C%02d" % i for i in range(1, 21)]
